@@ -80,12 +80,12 @@ var (
 // TestC01Size: scripts with one or two unusually large SubscribeResponses - a few very large values (more than 4 MiB,
 // sometimes more than 8 MiB in one response; plain or as an atomic container), thousands of updates in one notification,
 // rarely a single value above 4 MiB - in the sync burst and after it, with observers streaming meanwhile.
-// Same oracle as every part. Non-trivial = a target did send a single response above 4 MiB or with >= 1000 updates
-// (measured where it is sent) and the case has a delete after the sync.
+// Same oracle as every part. Non-trivial additionally demands that a target did send a single response above 4 MiB or
+// with >= 1000 updates (measured where it is sent).
 func TestC01Size(t *testing.T) {
 	runPart(t, "size", func(rt *rapid.T) *Scenario {
 		return genSizeScenario(rt, sizeParams{maxCount: *maxCount, maxBytes: *maxNoti << 20})
-	}, func(st *stats) bool { return st.bigResponse() && st.deleteAfterSync })
+	}, func(st *stats) bool { return st.nontrivial() && st.bigResponse() })
 }
 
 // TestC01Quiet: targets that say nothing for 35-45 s of REAL time while plain client-library applications
